@@ -13,10 +13,11 @@
 //
 // A family unit (c07_kll.cpp, c07_req.cpp, c07_quantiles.cpp) supplies a policy struct `F`:
 //   static const char* name();
-//   template<class T> using SK = <sketch type with comparator Tr<T>::Cmp>;
+//   template<class K> using SK = <sketch of Tr<K>::T with comparator type Tr<K>::Cmp>;   (K = "kind", see Tr)
 //   struct Cfg;  static Cfg cfg(Rng&);  static std::string cfg_str(const Cfg&);
 //   static uint32_t pick_k(Rng&, bool thorough);
-//   template<class T> static SK<T> make(uint32_t k, const Cfg&);
+//   template<class K> static SK<K> make(uint32_t k, const Cfg&, const Tr<K>::Cmp& instance);
+//   template<class K> static SK<K> roundtrip(const SK<K>&, const Tr<K>::Cmp& instance, bool stream);   // serialize + deserialize
 //   static uint64_t exact_cap(uint32_t k);         // largest n that plain updates keep exact
 //   template<class T> static void bound(const SK<T>&, uint32_t retained, uint64_t n, const std::string& ctx);
 //   template<class T> static void counters(const SK<T>&, const Observed&, bool after_merge);
@@ -44,9 +45,30 @@ struct Item { int32_t key; uint32_t tag; };
 struct ItemCmp { bool operator()(const Item& a, const Item& b) const { return a.key < b.key; } };
 inline std::ostream& operator<<(std::ostream& os, const Item& i) { return os << i.key << "#" << i.tag; }
 
-template<typename T> struct Tr;
+// A "kind" K names an (item type, comparator type) pair: Tr<K>::T and Tr<K>::Cmp.  For the plain kinds K is the item
+// type itself; DirDouble / DirString use a *stateful* comparator whose instances differ from a default-constructed one.
+template<typename K> struct Tr;
 
-template<typename FP> struct TrFloat {
+// direction-carrying comparator: a default-constructed instance sorts ascending, an instance with desc=true descending
+template<typename V> struct DirCmp {
+  bool desc;
+  DirCmp(): desc(false) {}
+  explicit DirCmp(bool d): desc(d) {}
+  bool operator()(const V& a, const V& b) const { return desc ? b < a : a < b; }
+};
+struct DirDouble {};
+struct DirString {};
+
+template<typename C> struct StatelessCmp {
+  static C make_cmp(Rng&) { return C(); }
+  static bool cmp_is_default(const C&) { return true; }
+  static std::string cmp_str(const C&) { return ""; }
+  static const bool has_serde = false;
+  static const bool stateful = false;
+};
+
+template<typename FP> struct TrFloat: StatelessCmp<std::less<FP>> {
+  typedef FP T;
   typedef std::less<FP> Cmp;
   static const bool has_nan = true;
   static FP make(int64_t key, uint32_t) { return static_cast<FP>(key) * static_cast<FP>(0.5) - static_cast<FP>(64); }
@@ -64,13 +86,14 @@ template<typename FP> struct TrFloat {
   }
   static FP nan() { return std::numeric_limits<FP>::quiet_NaN(); }
   static bool accepted(FP x) { return !std::isnan(x); }
-  static bool total_less(FP a, FP b) { return a < b || (a == b && std::signbit(a) && !std::signbit(b)); }
+  static bool total_less(const Cmp&, FP a, FP b) { return a < b || (a == b && std::signbit(a) && !std::signbit(b)); }
   static std::string show(FP x) { return str(x); }
 };
 template<> struct Tr<float>: TrFloat<float> { static const char* name() { return "float"; } };
 template<> struct Tr<double>: TrFloat<double> { static const char* name() { return "double"; } };
 
-template<> struct Tr<int64_t> {
+template<> struct Tr<int64_t>: StatelessCmp<std::less<int64_t>> {
+  typedef int64_t T;
   typedef std::less<int64_t> Cmp;
   static const bool has_nan = false;
   static const char* name() { return "int64"; }
@@ -86,11 +109,12 @@ template<> struct Tr<int64_t> {
   }
   static int64_t nan() { return 0; }
   static bool accepted(int64_t) { return true; }
-  static bool total_less(int64_t a, int64_t b) { return a < b; }
+  static bool total_less(const Cmp&, int64_t a, int64_t b) { return a < b; }
   static std::string show(int64_t x) { return std::to_string(x); }
 };
 
-template<> struct Tr<std::string> {
+template<> struct Tr<std::string>: StatelessCmp<StrCmp> {
+  typedef std::string T;
   typedef StrCmp Cmp;
   static const bool has_nan = false;
   static const char* name() { return "string"; }
@@ -110,11 +134,12 @@ template<> struct Tr<std::string> {
   }
   static std::string nan() { return std::string(); }
   static bool accepted(const std::string&) { return true; }
-  static bool total_less(const std::string& a, const std::string& b) { return StrCmp()(a, b); }
+  static bool total_less(const Cmp&, const std::string& a, const std::string& b) { return StrCmp()(a, b); }
   static std::string show(const std::string& x) { return "'" + hexbytes(x.data(), x.size(), 24) + "'"; }
 };
 
-template<> struct Tr<Item> {
+template<> struct Tr<Item>: StatelessCmp<ItemCmp> {
+  typedef Item T;
   typedef ItemCmp Cmp;
   static const bool has_nan = false;
   static const char* name() { return "item"; }
@@ -125,37 +150,85 @@ template<> struct Tr<Item> {
   }
   static Item nan() { return Item{0, 0}; }
   static bool accepted(const Item&) { return true; }
-  static bool total_less(const Item& a, const Item& b) { return a.key < b.key || (a.key == b.key && a.tag < b.tag); }
+  static bool total_less(const Cmp&, const Item& a, const Item& b) { return a.key < b.key || (a.key == b.key && a.tag < b.tag); }
   static std::string show(const Item& x) { return std::to_string(x.key) + "#" + std::to_string(x.tag); }
 };
 
-template<typename T> struct TotalLess { bool operator()(const T& a, const T& b) const { return Tr<T>::total_less(a, b); } };
+// stateful-comparator kinds: same values and hostile specials as the plain kinds, ordering taken from the instance
+template<> struct Tr<DirDouble> {
+  typedef double T;
+  typedef DirCmp<double> Cmp;
+  typedef Tr<double> B;
+  static const bool has_nan = true;
+  static const bool has_serde = true;
+  static const bool stateful = true;
+  static const char* name() { return "dir_double"; }
+  static Cmp make_cmp(Rng& r) { return Cmp(r.chance(0.6)); }
+  static bool cmp_is_default(const Cmp& c) { return !c.desc; }
+  static std::string cmp_str(const Cmp& c) { return c.desc ? "cmp=desc" : "cmp=asc"; }
+  static double make(int64_t key, uint32_t t) { return B::make(key, t); }
+  static int n_special() { return B::n_special(); }
+  static double special(int i, uint32_t t) { return B::special(i, t); }
+  static double nan() { return B::nan(); }
+  static bool accepted(double x) { return B::accepted(x); }
+  static bool total_less(const Cmp& c, double a, double b) { return c.desc ? B::total_less(B::Cmp(), b, a) : B::total_less(B::Cmp(), a, b); }
+  static std::string show(double x) { return B::show(x); }
+};
+template<> struct Tr<DirString> {
+  typedef std::string T;
+  typedef DirCmp<std::string> Cmp;
+  typedef Tr<std::string> B;
+  static const bool has_nan = false;
+  static const bool has_serde = true;
+  static const bool stateful = true;
+  static const char* name() { return "dir_string"; }
+  static Cmp make_cmp(Rng& r) { return Cmp(r.chance(0.6)); }
+  static bool cmp_is_default(const Cmp& c) { return !c.desc; }
+  static std::string cmp_str(const Cmp& c) { return c.desc ? "cmp=desc" : "cmp=asc"; }
+  static std::string make(int64_t key, uint32_t t) { return B::make(key, t); }
+  static int n_special() { return B::n_special(); }
+  static std::string special(int i, uint32_t t) { return B::special(i, t); }
+  static std::string nan() { return std::string(); }
+  static bool accepted(const std::string&) { return true; }
+  static bool total_less(const Cmp& c, const std::string& a, const std::string& b) { return c(a, b); }
+  static std::string show(const std::string& x) { return B::show(x); }
+};
+
+template<typename K> struct TotalLess {
+  typename Tr<K>::Cmp c;
+  explicit TotalLess(const typename Tr<K>::Cmp& cc): c(cc) {}
+  bool operator()(const typename Tr<K>::T& a, const typename Tr<K>::T& b) const { return Tr<K>::total_less(c, a, b); }
+};
 
 // ------------------------------------------------------------------------------- model
-template<typename T> struct Model {
-  typedef typename Tr<T>::Cmp Cmp;
+template<typename K> struct Model {
+  typedef typename Tr<K>::T T;
+  typedef typename Tr<K>::Cmp Cmp;
+  Cmp cmp;                 // the comparator *instance* the sketch was built with
+  Model(): cmp() {}
+  explicit Model(const Cmp& c): cmp(c) {}
   std::vector<T> v;        // accepted items; v[0, nsorted) sorted by total_less (a refinement of Cmp); all of it after prep()
   size_t nsorted = 0;
   uint64_t mult = 1;       // every item of v stands for `mult` accepted copies (sketch merged with copies of itself)
   uint64_t total() const { return static_cast<uint64_t>(v.size()) * mult; }
-  void add(const T& x) { if (Tr<T>::accepted(x)) v.push_back(x); }
+  void add(const T& x) { if (Tr<K>::accepted(x)) v.push_back(x); }
   void prep() {
     if (nsorted == v.size()) return;
     const auto mid = v.begin() + static_cast<std::ptrdiff_t>(nsorted);
-    std::sort(mid, v.end(), TotalLess<T>());
-    if (nsorted) std::inplace_merge(v.begin(), mid, v.end(), TotalLess<T>());
+    std::sort(mid, v.end(), TotalLess<K>(cmp));
+    if (nsorted) std::inplace_merge(v.begin(), mid, v.end(), TotalLess<K>(cmp));
     nsorted = v.size();
   }
   void absorb(Model& o) {
     if (o.v.empty()) return;
     prep(); o.prep();
     v.insert(v.end(), o.v.begin(), o.v.end());
-    std::inplace_merge(v.begin(), v.begin() + static_cast<std::ptrdiff_t>(nsorted), v.end(), TotalLess<T>());
+    std::inplace_merge(v.begin(), v.begin() + static_cast<std::ptrdiff_t>(nsorted), v.end(), TotalLess<K>(cmp));
     nsorted = v.size();
   }
-  uint64_t count_lt(const T& x) const { return mult * static_cast<uint64_t>(std::lower_bound(v.begin(), v.end(), x, Cmp()) - v.begin()); }
-  uint64_t count_le(const T& x) const { return mult * static_cast<uint64_t>(std::upper_bound(v.begin(), v.end(), x, Cmp()) - v.begin()); }
-  bool offered(const T& x) const { return std::binary_search(v.begin(), v.end(), x, TotalLess<T>()); }
+  uint64_t count_lt(const T& x) const { return mult * static_cast<uint64_t>(std::lower_bound(v.begin(), v.end(), x, cmp) - v.begin()); }
+  uint64_t count_le(const T& x) const { return mult * static_cast<uint64_t>(std::upper_bound(v.begin(), v.end(), x, cmp) - v.begin()); }
+  bool offered(const T& x) const { return std::binary_search(v.begin(), v.end(), x, TotalLess<K>(cmp)); }
 };
 
 inline void fcount(const std::string& fam, const std::string& name) { count(fam + "_" + name); }
@@ -184,11 +257,12 @@ struct Rep {
 
 // `dense`: size of the query grids; `light`: only the side-effect-free part (n, extremes, iteration, space bound).
 // `F` only supplies name() and bound().
-template<typename F, typename T>
-Observed observe(const typename F::template SK<T>& sk, Model<T>& m, Rng& r, const std::string& ctx0, unsigned dense, bool do_invalid, bool light = false) {
-  typedef Tr<T> TT;
+template<typename F, typename K>
+Observed observe(const typename F::template SK<K>& sk, Model<K>& m, Rng& r, const std::string& ctx0, unsigned dense, bool do_invalid, bool light = false) {
+  typedef Tr<K> TT;
+  typedef typename TT::T T;
   typedef typename TT::Cmp Cmp;
-  const Cmp cmp = Cmp();
+  const Cmp cmp = m.cmp;
   const std::string fam = F::name();
   m.prep();
   Observed o;
@@ -201,7 +275,7 @@ Observed observe(const typename F::template SK<T>& sk, Model<T>& m, Rng& r, cons
   o.n = n; o.retained = retained; o.est = est; o.empty = sk.is_empty();
   Rep rep;
   rep.fam = fam;
-  rep.ctx = ctx0 + " type=" + TT::name() + " model_n=" + std::to_string(N) + " n=" + std::to_string(n) +
+  rep.ctx = ctx0 + " type=" + TT::name() + " " + TT::cmp_str(cmp) + " model_n=" + std::to_string(N) + " n=" + std::to_string(n) +
     " retained=" + std::to_string(retained) + " est=" + (est ? "1" : "0");
   const std::string& ctx = rep.ctx;
 
@@ -246,7 +320,7 @@ Observed observe(const typename F::template SK<T>& sk, Model<T>& m, Rng& r, cons
       } catch (const std::exception&) { threw = true; }
       C07_CK(threw, clause[w], "");
     }
-    F::template bound<T>(sk, retained, n, ctx);
+    F::template bound<K>(sk, retained, n, ctx);
     sig(mix64(0xE, 0));
     return o;
   }
@@ -290,7 +364,7 @@ Observed observe(const typename F::template SK<T>& sk, Model<T>& m, Rng& r, cons
     C07_CK(offered, "iterator|item-not-in-stream", " item=" + bad);
     C07_CK(inrange, "iterator|item-outside-min-max", "");
   }
-  F::template bound<T>(sk, retained, n, ctx);
+  F::template bound<K>(sk, retained, n, ctx);
   if (light) {
     // read-out without side effects: queries and the sorted view sort level 0 / the base buffer and cache the view,
     // so some sketches must reach their next merge or update without ever having been queried
@@ -332,15 +406,15 @@ Observed observe(const typename F::template SK<T>& sk, Model<T>& m, Rng& r, cons
     o.distinct_weights = popcount64(wmask) + (odd_w ? 1 : 0);
     // the view shows the same retained (item, weight) multiset as the iterator
     if (ve.size() == its.size()) {
-      auto lt = [](const std::pair<T, uint64_t>& a, const std::pair<T, uint64_t>& b) {
-        if (TT::total_less(a.first, b.first)) return true;
-        if (TT::total_less(b.first, a.first)) return false;
+      auto lt = [&cmp](const std::pair<T, uint64_t>& a, const std::pair<T, uint64_t>& b) {
+        if (TT::total_less(cmp, a.first, b.first)) return true;
+        if (TT::total_less(cmp, b.first, a.first)) return false;
         return a.second < b.second;
       };
       std::sort(its.begin(), its.end(), lt); std::sort(ve.begin(), ve.end(), lt);
       bool same_items = true, same_weights = true;
       for (size_t j = 0; j < its.size(); ++j) {
-        if (TT::total_less(its[j].first, ve[j].first) || TT::total_less(ve[j].first, its[j].first)) same_items = false;
+        if (TT::total_less(cmp, its[j].first, ve[j].first) || TT::total_less(cmp, ve[j].first, its[j].first)) same_items = false;
         else if (its[j].second != ve[j].second) same_weights = false;
       }
       C07_CK(same_items, "sorted_view|items-differ-from-iteration", "");
@@ -455,8 +529,13 @@ Observed observe(const typename F::template SK<T>& sk, Model<T>& m, Rng& r, cons
     const T* ptr = ms ? sp.data() : &dummy;
     for (int inc = 0; inc < 2; ++inc) {
       const bool incl = inc == 1;
-      const auto cdf = sk.get_CDF(ptr, ms, incl);
-      const auto pmf = sk.get_PMF(ptr, ms, incl);
+      typename F::template SK<K>::vector_double cdf, pmf;
+      try { cdf = sk.get_CDF(ptr, ms, incl); pmf = sk.get_PMF(ptr, ms, incl); }
+      catch (const std::exception& e) {
+        // split points that are unique and increasing under the sketch's comparator instance are a valid query
+        checked(); rep.bad("get_CDF-get_PMF|valid-split-points-rejected", std::string(" splits=") + std::to_string(ms) + " what=" + e.what());
+        continue;
+      }
       const bool sizes = cdf.size() == ms + 1u && pmf.size() == ms + 1u;
       bool cdf_rank = true, pmf_nonneg = true, pmf_diff = true;
       double sum = 0;
@@ -540,9 +619,10 @@ Observed observe(const typename F::template SK<T>& sk, Model<T>& m, Rng& r, cons
 enum Shape { S_SORTED, S_REVERSED, S_RANDOM, S_CONSTANT, S_HEAVY_DUP, S_TWO_POINT, S_SAWTOOTH, S_NSHAPES };
 inline const char* shape_name(int s) { static const char* n[] = {"sorted", "reversed", "random", "constant", "heavydup", "twopoint", "sawtooth"}; return n[s]; }
 
-template<typename T>
-std::vector<T> gen_stream(Rng& r, uint64_t n, int shape, int64_t base, double p_special, uint32_t& serial) {
-  typedef Tr<T> TT;
+template<typename K>
+std::vector<typename Tr<K>::T> gen_stream(Rng& r, uint64_t n, int shape, int64_t base, double p_special, uint32_t& serial) {
+  typedef Tr<K> TT;
+  typedef typename TT::T T;
   std::vector<T> out;
   out.reserve(n);
   const uint64_t dom = r.chance(0.5) ? std::max<uint64_t>(1, n / 4) : n * 4 + 1;
@@ -568,17 +648,18 @@ std::vector<T> gen_stream(Rng& r, uint64_t n, int shape, int64_t base, double p_
 }
 
 // ------------------------------------------------------------------------------- merge-tree case
-template<typename F, typename T> struct Node {
-  std::unique_ptr<typename F::template SK<T>> sk;
-  Model<T> m;
+template<typename F, typename K> struct Node {
+  std::unique_ptr<typename F::template SK<K>> sk;
+  Model<K> m;
   uint32_t k0 = 0;
   std::string hist;
 };
 
 inline const char* mode_name(bool empty, bool est) { return empty ? "empty" : (est ? "est" : "exact"); }
 
-template<typename F, typename T>
-void feed(typename F::template SK<T>& sk, Model<T>& m, const std::vector<T>& items, Rng& r) {
+template<typename F, typename K>
+void feed(typename F::template SK<K>& sk, Model<K>& m, const std::vector<typename Tr<K>::T>& items, Rng& r) {
+  typedef typename Tr<K>::T T;
   const bool rv = r.chance(0.3);
   for (const T& x: items) {
     m.add(x);
@@ -586,17 +667,20 @@ void feed(typename F::template SK<T>& sk, Model<T>& m, const std::vector<T>& ite
   }
 }
 
-template<typename F, typename T>
+template<typename F, typename K>
 void run_case_t(uint64_t idx, Rng& r) {
-  typedef Tr<T> TT;
-  typedef typename F::template SK<T> SK;
-  typedef Node<F, T> N;
+  typedef Tr<K> TT;
+  typedef typename TT::T T;
+  typedef typename F::template SK<K> SK;
+  typedef Node<F, K> N;
   const bool TH = G().thorough();
   const std::string fam = F::name();
   const uint32_t s1 = static_cast<uint32_t>(r.next()), s2 = static_cast<uint32_t>(r.next());
   datasketches::random_utils::rand.seed(s1);
   datasketches::random_utils::random_bit.seed(s2);
   const typename F::Cfg cfg = F::cfg(r);
+  const typename TT::Cmp cmp0 = TT::make_cmp(r);     // one comparator instance for the whole tree (no draw for stateless kinds)
+  if (TT::stateful) fcount(fam, TT::cmp_is_default(cmp0) ? "dircmp_cases_default_state" : "dircmp_cases_nondefault_state");
   const unsigned nleaves = static_cast<unsigned>(r.range(2, 12));
   const bool equal_k = r.chance(0.45);
   const uint32_t k_common = F::pick_k(r, TH);
@@ -608,7 +692,7 @@ void run_case_t(uint64_t idx, Rng& r) {
   const double p_special = r.chance(0.35) ? (r.chance(0.2) ? 0.5 : 0.03) : 0.0;
   const bool overlap = r.coin();
   const unsigned dense = TH ? 48 : 32;
-  describe(fam + " type=" + TT::name() + " " + F::cfg_str(cfg) + " leaves=" + std::to_string(nleaves) + " k=" + std::to_string(k_common) +
+  describe(fam + " type=" + TT::name() + " " + TT::cmp_str(cmp0) + " " + F::cfg_str(cfg) + " leaves=" + std::to_string(nleaves) + " k=" + std::to_string(k_common) +
            (equal_k ? "(all)" : "(first)") + " est_max=" + std::to_string(est_max) + " p_special=" + str(p_special) + " coin_seeds=" + std::to_string(s1) + "," + std::to_string(s2));
   fcount(fam, std::string("type_") + TT::name());
 
@@ -633,24 +717,25 @@ void run_case_t(uint64_t idx, Rng& r) {
     const int64_t base = overlap ? static_cast<int64_t>(r.below(64)) : next_base;
     next_base += static_cast<int64_t>(n) + 3;
     const double ps = (TT::has_nan && r.chance(0.02)) ? 1.0 : p_special;    // an all-special (mostly NaN) batch now and then
-    const std::vector<T> items = gen_stream<T>(r, n, shape, base, ps, serial);
-    feed<F, T>(*nd.sk, nd.m, items, r);
+    const std::vector<T> items = gen_stream<K>(r, n, shape, base, ps, serial);
+    feed<F, K>(*nd.sk, nd.m, items, r);
     for (const T& x: items) if (!TT::accepted(x)) { fcount(fam, "nan_offered"); break; }
     fcount(fam, std::string("shape_") + shape_name(shape));
     nd.hist += std::string(what) + "(" + shape_name(shape) + "," + std::to_string(n) + ")";
     if (want_sample() && sample_leaves.size() < 400) sample_leaves += "k" + std::to_string(k) + ":" + shape_name(shape) + ":" + std::to_string(n) + ";";
   };
   auto obs = [&](N& nd, const char* after, bool after_merge, unsigned d, bool light = false) {
-    const Observed o = observe<F, T>(*nd.sk, nd.m, r, std::string("after ") + after + " " + F::cfg_str(cfg) + " k=" + std::to_string(nd.sk->get_k()) + " hist=" + nd.hist.substr(nd.hist.size() > 300 ? nd.hist.size() - 300 : 0),
+    const Observed o = observe<F, K>(*nd.sk, nd.m, r, std::string("after ") + after + " " + F::cfg_str(cfg) + " k=" + std::to_string(nd.sk->get_k()) + " hist=" + nd.hist.substr(nd.hist.size() > 300 ? nd.hist.size() - 300 : 0),
                                      d, r.chance(0.35), light);
-    F::template counters<T>(*nd.sk, o, after_merge);
+    F::template counters<K>(*nd.sk, o, after_merge);
     return o;
   };
 
   for (unsigned i = 0; i < nleaves; ++i) {
     N nd;
+    nd.m = Model<K>(cmp0);
     nd.k0 = equal_k ? k_common : (i == 0 ? k_common : F::pick_k(r, TH));
-    nd.sk.reset(new SK(F::template make<T>(nd.k0, cfg)));
+    nd.sk.reset(new SK(F::template make<K>(nd.k0, cfg, cmp0)));
     pool.push_back(std::move(nd));
     N& L = pool.back();
     if (r.chance(0.15)) obs(L, "construction", false, 8);
@@ -692,6 +777,15 @@ void run_case_t(uint64_t idx, Rng& r) {
     if (!rvalue && r.chance(0.3)) { obs(B, "being-merge-source", false, 12); fcount(fam, "source_reobserved"); }
     if (r.chance(0.25)) { grow_leaf(A, " upd"); obs(A, "updates-after-merge", true, dense, r.chance(0.5)); fcount(fam, "update_after_merge"); }
     if (r.chance(0.04)) { SK& self = *A.sk; SK& same = *A.sk; self = same; A.hist += " self="; obs(A, "self-copy-assignment", true, 16); fcount(fam, "self_assign"); }
+    if constexpr (TT::stateful) {
+      // the comparator instance must survive moves and (where deserialize takes one) serialization round trips
+      if (r.chance(0.12)) { SK moved(std::move(*A.sk)); *A.sk = std::move(moved); A.hist += " moved"; obs(A, "move-construct-and-move-assign", true, dense, r.chance(0.3)); fcount(fam, "dircmp_moved"); }
+      if (r.chance(0.15)) {
+        try { SK back(F::template roundtrip<K>(*A.sk, cmp0, r.coin())); *A.sk = std::move(back); }
+        catch (const std::exception& e) { checked(); fail(fam + "|roundtrip|threw", std::string("serialize/deserialize of a valid sketch threw: ") + e.what() + " hist=" + A.hist); return; }
+        A.hist += " serde"; obs(A, "serialize-deserialize-with-comparator-instance", true, dense, r.chance(0.3)); fcount(fam, "dircmp_roundtrip");
+      }
+    }
     if (r.chance(0.04)) {     // the merge source is overwritten by a copy of the result before it is dropped
       *B.sk = *A.sk; B.m = A.m; B.hist = "assigned[" + A.hist.substr(0, 60) + "]";
       obs(B, "copy-assignment", true, 16); fcount(fam, "copy_assign");
@@ -711,15 +805,18 @@ void run_case_t(uint64_t idx, Rng& r) {
 // starting length): every accepted item's multiplicity doubles per merge, extremes stay, so the exact model is the
 // starting multiset with a 64-bit multiplier.  All 64-bit weight arithmetic (iterator weights, sorted view, ranks
 // summed per level, CDF/PMF) is observed against it.
-template<typename F, typename T>
+template<typename F, typename K>
 void run_case_huge(uint64_t idx, Rng& r) {
-  typedef Tr<T> TT;
-  typedef typename F::template SK<T> SK;
+  typedef Tr<K> TT;
+  typedef typename TT::T T;
+  typedef typename F::template SK<K> SK;
   const std::string fam = F::name();
   const uint32_t s1 = static_cast<uint32_t>(r.next()), s2 = static_cast<uint32_t>(r.next());
   datasketches::random_utils::rand.seed(s1);
   datasketches::random_utils::random_bit.seed(s2);
   const typename F::Cfg cfg = F::cfg(r);
+  const typename TT::Cmp cmp0 = TT::make_cmp(r);
+  if (TT::stateful) fcount(fam, TT::cmp_is_default(cmp0) ? "dircmp_cases_default_state" : "dircmp_cases_nondefault_state");
   const uint32_t k = F::pick_k(r, false);
   static const uint64_t n0s[] = {4096, 4095, 4097, 2048, 2047, 1024, 3000, 1500, 777};
   const uint64_t n0 = r.chance(0.25) ? 300 + r.below(5000) : n0s[r.below(sizeof n0s / sizeof n0s[0])];
@@ -728,21 +825,21 @@ void run_case_huge(uint64_t idx, Rng& r) {
   unsigned d_cross = 0;                       // doublings until n >= 2^32
   while ((n0 << d_cross) < (1ULL << 32)) ++d_cross;
   const unsigned doublings = d_cross + static_cast<unsigned>(r.below(3));
-  describe(fam + " HUGE type=" + TT::name() + " " + F::cfg_str(cfg) + " k=" + std::to_string(k) + " n0=" + std::to_string(n0) + " shape=" + shape_name(shape) +
+  describe(fam + " HUGE type=" + TT::name() + " " + TT::cmp_str(cmp0) + " " + F::cfg_str(cfg) + " k=" + std::to_string(k) + " n0=" + std::to_string(n0) + " shape=" + shape_name(shape) +
            " doublings=" + std::to_string(doublings) + " p_special=" + str(p_special) + " coin_seeds=" + std::to_string(s1) + "," + std::to_string(s2));
   fcount(fam, "huge_cases");
   fcount(fam, std::string("huge_type_") + TT::name());
   uint32_t serial = 0;
-  SK sk(F::template make<T>(k, cfg));
-  Model<T> m;
-  const std::vector<T> items = gen_stream<T>(r, n0, shape, 0, p_special, serial);
-  feed<F, T>(sk, m, items, r);
+  SK sk(F::template make<K>(k, cfg, cmp0));
+  Model<K> m(cmp0);
+  const std::vector<T> items = gen_stream<K>(r, n0, shape, 0, p_special, serial);
+  feed<F, K>(sk, m, items, r);
   m.prep();
   if (m.v.empty()) return;
   auto obs = [&](const char* after, bool light) {
-    const Observed o = observe<F, T>(sk, m, r, std::string("after ") + after + " " + F::cfg_str(cfg) + " k=" + std::to_string(sk.get_k()) + " n0=" + std::to_string(m.v.size()) +
+    const Observed o = observe<F, K>(sk, m, r, std::string("after ") + after + " " + F::cfg_str(cfg) + " k=" + std::to_string(sk.get_k()) + " n0=" + std::to_string(m.v.size()) +
                                      " multiplier=" + std::to_string(m.mult), 32, r.chance(0.3), light);
-    F::template counters<T>(sk, o, true);
+    F::template counters<K>(sk, o, true);
     if (!light) {
       if (o.n == (1ULL << 32)) fcount(fam, "huge_obs_n_eq_2p32");
       else if (o.n > (1ULL << 32)) fcount(fam, "huge_obs_n_gt_2p32");
@@ -771,38 +868,48 @@ void run_case_huge(uint64_t idx, Rng& r) {
   (void) idx;
 }
 
-template<typename F, typename T>
+template<typename F, typename K>
 void run_one(uint64_t idx, Rng& r, uint64_t ntypes) {
-  if ((idx / ntypes) % 20 == 7) run_case_huge<F, T>(idx, r); else run_case_t<F, T>(idx, r);
+  if ((idx / ntypes) % 20 == 7) run_case_huge<F, K>(idx, r); else run_case_t<F, K>(idx, r);
 }
 
-// Item types of this translation unit: -DVF_C07_TYPESET=0 arithmetic (float, double, int64), =1 objects
-// (std::string with custom comparator, Item), unset = all five.  Compile time is the only reason to split.
+// Kinds of this translation unit: -DVF_C07_TYPESET=0 arithmetic (float, double, int64), =1 objects (std::string with
+// custom comparator, Item), =2 stateful comparators (DirDouble, DirString), unset = all seven.  Compile time is the
+// only reason to split.
 #ifndef VF_C07_TYPESET
-#define VF_C07_TYPESET 2
+#define VF_C07_TYPESET 3
 #endif
-inline uint64_t num_types() { return VF_C07_TYPESET == 0 ? 3 : (VF_C07_TYPESET == 1 ? 2 : 5); }
+inline uint64_t num_types() { return VF_C07_TYPESET == 0 ? 3 : (VF_C07_TYPESET == 1 ? 2 : (VF_C07_TYPESET == 2 ? 2 : 7)); }
+inline uint64_t cases_per_type(bool thorough) { return VF_C07_TYPESET == 2 ? (thorough ? 8000 : 1200) : (thorough ? 15000 : 2000); }
 
 template<typename F>
 void run_case_any(uint64_t idx, Rng& r) {
+  const uint64_t nt = num_types();
 #if VF_C07_TYPESET == 0
   switch (idx % 3) {
-    case 0: run_one<F, float>(idx, r, num_types()); break;
-    case 1: run_one<F, double>(idx, r, num_types()); break;
-    default: run_one<F, int64_t>(idx, r, num_types()); break;
+    case 0: run_one<F, float>(idx, r, nt); break;
+    case 1: run_one<F, double>(idx, r, nt); break;
+    default: run_one<F, int64_t>(idx, r, nt); break;
   }
 #elif VF_C07_TYPESET == 1
   switch (idx % 2) {
-    case 0: run_one<F, std::string>(idx, r, num_types()); break;
-    default: run_one<F, Item>(idx, r, num_types()); break;
+    case 0: run_one<F, std::string>(idx, r, nt); break;
+    default: run_one<F, Item>(idx, r, nt); break;
+  }
+#elif VF_C07_TYPESET == 2
+  switch (idx % 2) {
+    case 0: run_one<F, DirDouble>(idx, r, nt); break;
+    default: run_one<F, DirString>(idx, r, nt); break;
   }
 #else
-  switch (idx % 5) {
-    case 0: run_one<F, float>(idx, r, num_types()); break;
-    case 1: run_one<F, double>(idx, r, num_types()); break;
-    case 2: run_one<F, int64_t>(idx, r, num_types()); break;
-    case 3: run_one<F, std::string>(idx, r, num_types()); break;
-    default: run_one<F, Item>(idx, r, num_types()); break;
+  switch (idx % 7) {
+    case 0: run_one<F, float>(idx, r, nt); break;
+    case 1: run_one<F, double>(idx, r, nt); break;
+    case 2: run_one<F, int64_t>(idx, r, nt); break;
+    case 3: run_one<F, std::string>(idx, r, nt); break;
+    case 4: run_one<F, Item>(idx, r, nt); break;
+    case 5: run_one<F, DirDouble>(idx, r, nt); break;
+    default: run_one<F, DirString>(idx, r, nt); break;
   }
 #endif
 }
